@@ -190,6 +190,13 @@ type cand struct {
 type mutation struct {
 	name string
 	f    func(t *rapid.T, b []byte) []byte
+	// fq, if set, is used instead of f and also sees the request the datagram answers
+	fq func(t *rapid.T, b []byte, q *ntp.Packet) []byte
+}
+
+func putT64(b []byte, v ntp.Time64) {
+	binary.BigEndian.PutUint32(b, v.Seconds)
+	binary.BigEndian.PutUint32(b[4:], v.Fraction)
 }
 
 func setLVM(li, vn, mode int) func(*rapid.T, []byte) []byte {
@@ -197,48 +204,68 @@ func setLVM(li, vn, mode int) func(*rapid.T, []byte) []byte {
 }
 
 var headerMutations = []mutation{
-	{"none", func(_ *rapid.T, b []byte) []byte { return b }},
+	{"none", func(_ *rapid.T, b []byte) []byte { return b }, nil},
 	{"origin-bit", func(t *rapid.T, b []byte) []byte {
 		bit := rapid.IntRange(0, 63).Draw(t, "bit")
 		b[24+bit/8] ^= 1 << (bit % 8)
 		return b
-	}},
-	{"origin-zero", func(_ *rapid.T, b []byte) []byte { clear(b[24:32]); return b }},
+	}, nil},
+	{"origin-zero", func(_ *rapid.T, b []byte) []byte { clear(b[24:32]); return b }, nil},
 	{"mode", func(t *rapid.T, b []byte) []byte {
 		b[0] = b[0]&^7 | byte(rapid.SampledFrom([]int{0, 1, 2, 3, 5, 6, 7}).Draw(t, "mode"))
 		return b
-	}},
+	}, nil},
 	{"version", func(t *rapid.T, b []byte) []byte {
 		b[0] = b[0]&^0x38 | byte(rapid.SampledFrom([]int{0, 1, 2, 5, 6, 7}).Draw(t, "vn"))<<3
 		return b
-	}},
-	{"version-3", func(_ *rapid.T, b []byte) []byte { b[0] = b[0]&^0x38 | 3<<3; return b }},
-	{"leap-3", func(_ *rapid.T, b []byte) []byte { b[0] |= 0xc0; return b }},
+	}, nil},
+	{"version-3", func(_ *rapid.T, b []byte) []byte { b[0] = b[0]&^0x38 | 3<<3; return b }, nil},
+	{"leap-3", func(_ *rapid.T, b []byte) []byte { b[0] |= 0xc0; return b }, nil},
 	{"leap-1-2", func(t *rapid.T, b []byte) []byte {
 		b[0] = b[0]&^0xc0 | byte(rapid.IntRange(1, 2).Draw(t, "li"))<<6
 		return b
-	}},
+	}, nil},
 	{"stratum-bad", func(t *rapid.T, b []byte) []byte {
 		b[1] = byte(rapid.SampledFrom([]int{0, 16, 17, 128, 255}).Draw(t, "stratum"))
 		return b
-	}},
-	{"stratum-ok", func(t *rapid.T, b []byte) []byte { b[1] = byte(rapid.IntRange(2, 15).Draw(t, "stratum")); return b }},
+	}, nil},
+	{"stratum-ok", func(t *rapid.T, b []byte) []byte { b[1] = byte(rapid.IntRange(2, 15).Draw(t, "stratum")); return b }, nil},
 	{"tx-before-rx", func(t *rapid.T, b []byte) []byte {
 		// transmit = receive - delta
 		rx := binary.BigEndian.Uint64(b[32:])
 		d := rapid.SampledFrom([]uint64{1, 5, 1 << 32, 1 << 40, 1 << 56}).Draw(t, "delta")
 		binary.BigEndian.PutUint64(b[40:], rx-d)
 		return b
-	}},
-	{"truncate", func(t *rapid.T, b []byte) []byte { return b[:rapid.IntRange(0, 47).Draw(t, "len")] }},
+	}, nil},
+	{"truncate", func(t *rapid.T, b []byte) []byte { return b[:rapid.IntRange(0, 47).Draw(t, "len")] }, nil},
 	{"harmless-fields", func(t *rapid.T, b []byte) []byte {
 		b[2], b[3] = rapid.Byte().Draw(t, "poll"), rapid.Byte().Draw(t, "prec")
 		copy(b[4:16], rapid.SliceOfN(rapid.Byte(), 12, 12).Draw(t, "rootref"))
 		copy(b[16:24], rapid.SliceOfN(rapid.Byte(), 8, 8).Draw(t, "reftime"))
 		return b
-	}},
+	}, nil},
 	{"random-bytes", func(t *rapid.T, b []byte) []byte {
 		return rapid.SliceOfN(rapid.Byte(), 0, 200).Draw(t, "junk")
+	}, nil},
+	// forged "interleaved" replies: origin = the request's receive field (zero for a basic request), with
+	// transmit / receive timestamps chosen by the forger (early era-1 values, the request's own fields, current time)
+	{"forged-interleaved", nil, func(t *rapid.T, b []byte, q *ntp.Packet) []byte {
+		putT64(b[24:], q.ReceiveTime)
+		switch rapid.IntRange(0, 3).Draw(t, "forge-tx") {
+		case 0: // just after the start of an NTP era
+			putT64(b[40:], ntp.Time64{Seconds: uint32(rapid.IntRange(1, 100000).Draw(t, "era-sec"))})
+			putT64(b[32:], ntp.Time64{Seconds: uint32(rapid.IntRange(0, 100).Draw(t, "era-rx"))})
+		case 1: // later than anything the client can have stored
+			tx := binary.BigEndian.Uint64(b[40:]) + uint64(rapid.IntRange(1, 5000).Draw(t, "ahead"))<<32
+			binary.BigEndian.PutUint64(b[40:], tx)
+		case 2:
+			putT64(b[32:], ntp.Time64{})
+		}
+		return b
+	}},
+	{"origin=request-origin-field", nil, func(t *rapid.T, b []byte, q *ntp.Packet) []byte {
+		putT64(b[24:], q.OriginTime)
+		return b
 	}},
 }
 
@@ -318,6 +345,9 @@ func TestPropAcceptance(t *testing.T) {
 				}
 			}
 		}
+		if nWarm > 0 && rapid.IntRange(0, 3).Draw(t, "reset-after-warmup") == 1 {
+			c.ResetInterleavedMode() // the next request is a basic one although timestamps of the previous exchange are stored
+		}
 		// the scripted exchange
 		nd := rapid.IntRange(1, 3).Draw(t, "ndatagrams")
 		type drawn struct {
@@ -354,7 +384,12 @@ func TestPropAcceptance(t *testing.T) {
 			sesMu.Unlock()
 			var outs []netlab.Out
 			for i, d := range plan {
-				hdr := d.mut.f(t, ex.Variant(d.theta))
+				var hdr []byte
+				if d.mut.fq != nil {
+					hdr = d.mut.fq(t, ex.Variant(d.theta), &ex.Req)
+				} else {
+					hdr = d.mut.f(t, ex.Variant(d.theta))
+				}
 				data := hdr
 				desc := d.mut.name
 				if useNTS && len(hdr) >= 48 && d.mut.name != "random-bytes" {
